@@ -60,6 +60,7 @@ KINDS = [
     ('bullet-pipe',  '* zq@@k36x | b |',                    ALL, 0),
     ('enum-pipe',    '1. zq@@k37x | b',                     ALL, 0),
     ('quote-pipe',   '> | zq@@k38x | b |',                  ALL, 0),
+    ('toc-trailing', '{{TOC}} zq@@k39x trailing words',     ALL, 0),
 ]
 K = len(KINDS)
 LINE_NAMES = {1: 'HR', 2: 'SETEXT_1', 3: 'SETEXT_2', 4: 'YAML', 5: 'CONTINUATION', 6: 'PLAIN', 7: 'INDENTED_TAB', 8: 'INDENTED_SPACE',
